@@ -3,7 +3,7 @@
 driving MqttSink of a real connection over IoTest) against the extracted Coq model Model/Sink.v
 (ocaml/driver run 31 / 32) on generated operation sequences (tools/gen_sink.py).
 
-usage: diff_sink.py [--seed N] [--versions 3,5] [--roles 0,1] [--exh-len 6] [--exh-limit N] [--random N] [--qos2 N] [--quiesced N]
+usage: diff_sink.py [--seed N] [--versions 3,5] [--roles 0,1] [--exh-len 6] [--exh-limit N] [--random N] [--qos2 N] [--quiesced N] [--create N] [--create-exh-len L]
                     [--show N] [--dump-dir DIR] [--sim] [--no-build] [--cases FILE]
 exit 0 when every observation is identical on both sides, 1 otherwise, 2 when the machinery is broken.
 Besides the comparison it scans the implementation's observations for behaviour that is wrong whatever the
@@ -63,7 +63,7 @@ def anomalies(case, obs):
             acks += [(i, op[j], op[j + 1] % 65536) for j in range(1, len(op) - 1, 2)]
         if "255" in n:
             w = [int(x) for x in n[n.index("255") + 1:]]
-            if op[0] in (1, 2) and len(op) > 1:
+            if op[0] in (1, 2, 16) and len(op) > 1:
                 for j in range(0, len(w) - 1, 2):
                     if w[j] in (1, 2, 5, 6):
                         sent[op[1]] = (w[j], w[j + 1], i)
@@ -150,6 +150,8 @@ def main():
     ap.add_argument("--random", type=int, default=8000)
     ap.add_argument("--qos2", type=int, default=800)
     ap.add_argument("--quiesced", type=int, default=3000)
+    ap.add_argument("--create", type=int, default=8000, help="random schedules using operation 16 (0: skip the part)")
+    ap.add_argument("--create-exh-len", type=int, default=4)
     ap.add_argument("--show", type=int, default=5)
     ap.add_argument("--dump-dir", default=None)
     ap.add_argument("--cases", default=None, help="file with case lines instead of generated ones")
@@ -177,6 +179,12 @@ def main():
                 for role in [int(x) for x in a.roles.split(",")]:
                     cases += G.gen_all(rng, v, role, a.exh_len, a.exh_limit, a.random, a.qos2)
             total += compare(engine, v, cases, a.show, a.dump_dir, a.sim)
+            if not a.cases and a.create:
+                cc = []
+                for role in [int(x) for x in a.roles.split(",")]:
+                    cc += G.gen_create(rng, v, role, a.create_exh_len, a.create)
+                print("-- %s: schedules that create tasks without polling them (operation 16)" % engine)
+                total += compare(engine, v, cc, a.show, a.dump_dir and a.dump_dir + "/create", a.sim)
             if not a.cases and a.quiesced:
                 qc = []
                 for role in [int(x) for x in a.roles.split(",")]:
